@@ -1284,6 +1284,9 @@ def simp(v):
             if c_[0] in ("phi", "ifexp") and len(c_) == 4 and not any(x in bound for x in walk(c_[1])):
                 arm = lambda w: simp(("comp", v[1], v[2], ((tg, it, tuple(ifs[:i_]) + (w,) + tuple(ifs[i_ + 1:])),)))
                 return ("phi", c_[1], arm(c_[2]), arm(c_[3]))
+    # D[k] if k in D else d   is   D.get(k, d)
+    if k in ("ifexp", "phi") and len(v) == 4 and v[1][0] == "cmp" and v[1][1] == ("In",) and len(v[1][2]) == 2 and v[2] == ("sub", v[1][2][1], v[1][2][0]):
+        return ("meth", v[1][2][1], "get", (v[1][2][0], v[3]), ())
     if k == "sub":
         base, idx = v[1], v[2]
         if base[0] in ("list", "tuple") and idx[0] == "const" and isinstance(idx[1], int) \
